@@ -23,8 +23,34 @@ class CallGraph:
             tr = fn.raw.get("impl_trait")
             if tr and fn.raw.get("name"):
                 self.impls.setdefault((norm(tr), fn.raw["name"]), []).append(fn)
+        # with what types is a private generic function used?  {fn id: set of type strings} when every call of it names concrete
+        # types (no type parameter of the caller, no `impl Trait`); absent = unknown
+        self.inst = {}
+        calls_of = {}
+        for fn in F.fns.values():
+            for b in fn.blocks:
+                t = b["term"]
+                if t and t["k"] == "call" and "callee" in t and t["callee"].get("local") and t["callee"].get("gargs"):
+                    calls_of.setdefault(t["callee"]["id"], []).append(t["callee"]["gargs"])
+        import re as _re
+
+        def concrete(g):
+            return not _re.fullmatch(r"[A-Z][A-Za-z0-9]{0,2}", g.strip()) and "impl " not in g and "{closure" not in g and "dyn " not in g
+        for gid, lists in calls_of.items():
+            g = F.fns.get(gid)
+            if g is None or g.raw.get("public") or g.raw.get("impl_trait") or "{closure" in g.path:
+                continue
+            if all(concrete(x) for l in lists for x in l):
+                self.inst[gid] = {self._bare(x) for l in lists for x in l}
         for fn in F.fns.values():
             self._scan(fn)
+
+    @staticmethod
+    def _bare(ty):
+        """a type without references, lifetimes and generic arguments: `&'a runtime::substance::Substance` -> `runtime::substance::Substance`"""
+        import re as _re
+        ty = _re.sub(r"&('[a-z_]+ )?(mut )?", "", ty.strip())
+        return _re.sub(r"<.*$", "", ty)
 
     def _add(self, a, b, kind, bb):
         if b in self.F.fns:
@@ -41,8 +67,15 @@ class CallGraph:
             if (not c.get("resolved") or virtual) and c.get("trait"):
                 # class-hierarchy analysis over the workspace impls of that trait method
                 name = c["path"].split("::")[-1]
+                # inside a private generic function (or a closure of one) a call on a type parameter can only reach the impls for
+                # the types that function is used with, when all its uses are known and concrete
+                root = (fn.raw.get("root") or {}).get("id", fn.id)
+                only = self.inst.get(root)
+                on_param = bool(c.get("gargs")) and all(len(x.strip()) <= 3 and x.strip()[:1].isupper() for x in c["gargs"][:1])
                 for g in self.impls.get((norm(c["trait"]), name), []):
                     if g.crate == fn.crate or g.crate in DEPS.get(fn.crate, ()):
+                        if only is not None and on_param and self._bare(str(g.raw.get("impl_self", "?"))) not in only:
+                            continue
                         self._add(fn.id, g.id, "cha", bb)
             if c.get("decl_id") in F.fns:
                 # default method body of a local trait
